@@ -317,6 +317,72 @@ func runSlowPush(trial int, sit string) (res restartResult) {
 	return
 }
 
+// C10 (x C12): restart of a scheduler with a worker pool while a worker of the stopped run is still busy.
+// In the new run one job occupies every new worker and one more is due (the new loop is handing it
+// over); then the old worker's job returns and that worker is back in its select with its cancelled
+// context.  No job of the new run may be entered with a cancelled context, and no more than `limit` of them
+// may run at once.
+type staleWorkerResult struct {
+	Kind        string `json:"kind"`
+	Trial       int    `json:"trial"`
+	Limit       int    `json:"limit"`
+	NewExecs    int32  `json:"new_run_execs"`
+	StaleExecs  int32  `json:"entered_with_cancelled_ctx"`
+	MaxInflight int64  `json:"max_inflight_new_run"`
+	WaitOK      bool   `json:"wait_returned"`
+	Error       string `json:"error,omitempty"`
+}
+
+func runStaleWorker(trial, limit int) staleWorkerResult {
+	res := staleWorkerResult{Kind: "staleworker", Trial: trial, Limit: limit}
+	s, _ := quartz.NewStdScheduler(quartz.WithWorkerLimit(limit), quartz.WithOutdatedThreshold(time.Minute))
+	rel1 := make(chan struct{})
+	var oldIn atomic.Int32
+	for i := 0; i < limit; i++ {
+		s.ScheduleJob(detail("old"+string(rune('a'+i)), func(context.Context) error { oldIn.Add(1); <-rel1; return nil }), quartz.NewRunOnceTrigger(time.Millisecond))
+	}
+	s.Start(context.Background())
+	if !pollUntil(5*time.Second, func() bool { return oldIn.Load() >= int32(limit) }) {
+		res.Error = "the jobs of the first run did not start"
+		close(rel1)
+		stopAndWait(s, 3*time.Second)
+		return res
+	}
+	s.Stop()
+	s.Start(context.Background())
+	rel2 := make(chan struct{})
+	var newExecs, stale atomic.Int32
+	var fl inflight
+	mk := func(name string) {
+		s.ScheduleJob(detail(name, func(ctx context.Context) error {
+			newExecs.Add(1)
+			if ctx.Err() != nil {
+				stale.Add(1)
+			}
+			fl.enter()
+			defer fl.exit()
+			<-rel2
+			return nil
+		}), quartz.NewRunOnceTrigger(time.Millisecond))
+	}
+	for i := 0; i < limit; i++ {
+		mk("x" + string(rune('a'+i)))
+	}
+	pollUntil(5*time.Second, func() bool { return newExecs.Load() >= int32(limit) })
+	for i := 0; i < limit; i++ {
+		mk("y" + string(rune('a'+i))) // these make the new loop block in the hand-over
+	}
+	time.Sleep(25 * time.Millisecond)
+	close(rel1) // the workers of the stopped run finish and go back to their select
+	time.Sleep(40 * time.Millisecond)
+	res.MaxInflight = fl.max.Load()
+	close(rel2)
+	pollUntil(3*time.Second, func() bool { return newExecs.Load() >= int32(2*limit) })
+	res.NewExecs, res.StaleExecs = newExecs.Load(), stale.Load()
+	res.WaitOK = stopAndWait(s, 5*time.Second)
+	return res
+}
+
 func cmdRestart() {
 	n := argInt(3, 12)
 	var wg sync.WaitGroup
@@ -350,6 +416,24 @@ func cmdRestart() {
 				emit(r)
 			case <-time.After(40 * time.Second):
 				emit(restartResult{Kind: "restart", Trial: i, Variant: variant, DelayMs: -1, Error: "trial did not finish within 40 s"})
+			}
+		}()
+	}
+	// restart with a busy worker of the stopped run
+	for i := 0; i < n; i++ {
+		i := i
+		wg.Add(1)
+		go func() {
+			defer wg.Done()
+			sem <- struct{}{}
+			defer func() { <-sem }()
+			ch := make(chan staleWorkerResult, 1)
+			go func() { ch <- runStaleWorker(i, 1+i%2) }()
+			select {
+			case r := <-ch:
+				emit(r)
+			case <-time.After(40 * time.Second):
+				emit(staleWorkerResult{Kind: "staleworker", Trial: i, Limit: 1 + i%2, Error: "trial did not finish within 40 s"})
 			}
 		}()
 	}
